@@ -9,8 +9,8 @@ SEED/patch.diff, SEED/demo_test.go.txt and SEED/notes.md. This script
      that the module builds and the pinned suite passes with the change;
   2. adds the demonstration and checks that it FAILS with the change and PASSES
      without it;
-  3. applies the patch to /repo itself, runs every property's quick check,
-     records which ones report a violation, and undoes the patch;
+  3. applies the patch to another scratch worktree, runs every property's quick
+     check on it and records which ones report a violation;
   4. writes /verif/seeded/<id>/{patch.diff, demo_test.go.txt, notes.md, meta.json}.
 Nothing is committed to /repo; every scratch worktree is removed.
 """
@@ -80,20 +80,26 @@ def main():
     result["confirmed"] = bool(ok)
     detected = {}
     if ok:
-        rc, out = run(["git", "-C", REPO, "status", "--porcelain"])
-        assert out.strip() == "", "/repo is not clean: " + out
-        rc, out = run(["git", "-C", REPO, "apply", "--whitespace=nowarn", patch])
+        # the quick checks run on a private worktree of /repo HEAD with the patch applied (several seeds can be
+        # filed at the same time, and a thorough run reading /repo is not disturbed)
+        tree = "/tmp/ingest_" + seed_id
+        run(["git", "-C", REPO, "worktree", "remove", "--force", tree])
+        rc, out = run(["git", "-C", REPO, "worktree", "add", "-q", "--detach", tree, "HEAD"])
         assert rc == 0, out
         try:
-            for i in range(1, 21):
-                pid = "C%02d" % i
-                rc, out = run([os.path.join(VERIF, "bin", "verifcheck"), "-repo", REPO, "-verif", VERIF, "-prop", pid, "-no-evidence"])
-                if rc != 0:
-                    lines = [l.strip() for l in out.splitlines() if l.startswith("  ")]
-                    detected[pid] = lines[:4]
+            rc, out = run(["git", "-C", tree, "apply", "--whitespace=nowarn", patch])
+            assert rc == 0, out
+            def one(pid):
+                rc, out = run([os.path.join(VERIF, "bin", "verifcheck"), "-repo", tree, "-verif", VERIF, "-prop", pid, "-no-evidence"])
+                return pid, rc, [l.strip() for l in out.splitlines() if l.startswith("  ")]
+            from concurrent.futures import ThreadPoolExecutor
+            with ThreadPoolExecutor(4) as ex:
+                for pid, rc, lines in ex.map(one, ["C%02d" % i for i in range(1, 21)]):
+                    if rc != 0:
+                        detected[pid] = lines[:4]
         finally:
-            run(["git", "-C", REPO, "checkout", "--", "."]); run(["git", "-C", REPO, "clean", "-fdq"])
-        ran.append("patch applied to /repo, all 20 quick checks run, patch undone (git checkout -- .)")
+            run(["git", "-C", REPO, "worktree", "remove", "--force", tree]); shutil.rmtree(tree, ignore_errors=True)
+        ran.append("patch applied to a scratch worktree of /repo HEAD, all 20 quick checks run on it, worktree removed")
     result["detected_by"] = sorted(detected)
     result["reports"] = detected
     result["ran"] = ran
